@@ -5,7 +5,7 @@ def build(tier):
     obs = []
     base = dict(ext_t=False, ext_m=False, out_i=0, has_prefix=False, sep2=False)
     # matcher = fully symbolic predicate over the paths CMinx asks about (input path included), every listing order
-    for sk in (["S1", "S2"] if quick else ["S1", "S2", "S2b", "S3"]):
+    for sk in (["S1", "S2q"] if quick else ["S1", "S2", "S2b", "S3"]):
         for rec in ((True,) if sk != "S1" else (False,)):
             for ae in (False, True):
                 obs.append(trees.tree_ob("C15", sk, "tree", dict(base, recursive=rec, auto_ex=ae), timeout=400 if quick else 2400))
